@@ -428,12 +428,12 @@ class HyASTCompiler:
         exprs_iter = iter(exprs)
         for expr in exprs_iter:
 
-            if is_unpack("mapping", expr):
+            if (dict_display or with_kwargs) and is_unpack("mapping", expr):
                 ret += self.compile(expr[1])
                 if dict_display:
                     compiled_exprs.append(None)
                     compiled_exprs.append(ret.force_expr)
-                elif with_kwargs:
+                else:
                     keywords.append(asty.keyword(expr, arg=None, value=ret.force_expr))
 
             elif with_kwargs and isinstance(expr, Keyword):
